@@ -259,3 +259,29 @@ func loopBound(fn *ssa.Function, blk *ssa.BasicBlock) (ssa.Value, bool) {
 	}
 	return nil, false
 }
+
+// isRecordHdrField: v is (the address or a load of) field fld of a local of type
+// ntske.RecordHdr - whatever that local is called.
+func isRecordHdrField(v ssa.Value, fld string) bool {
+	if u, ok := v.(*ssa.UnOp); ok && u.Op == token.MUL {
+		v = u.X
+	}
+	switch x := v.(type) {
+	case *ssa.FieldAddr:
+		return typeNameOf(x.X.Type()) == "RecordHdr" && fieldNameOf(x.X.Type(), x.Field) == fld
+	case *ssa.Field:
+		return typeNameOf(x.X.Type()) == "RecordHdr" && fieldNameOf(x.X.Type(), x.Field) == fld
+	case *ssa.Convert:
+		return isRecordHdrField(x.X, fld)
+	}
+	return false
+}
+
+// isRecordHdrVar: v is (the address of) a local of type ntske.RecordHdr.
+func isRecordHdrVar(v ssa.Value) bool {
+	if mi, ok := v.(*ssa.MakeInterface); ok {
+		v = mi.X
+	}
+	a, ok := v.(*ssa.Alloc)
+	return ok && typeNameOf(a.Type()) == "RecordHdr"
+}
